@@ -3,6 +3,8 @@ CONSTANTS
   MaxTraits = 1
   MaxTAttrs = 0
   MaxMembers = 2
+  MaxVFields = 0
+  VFMenu = {}
   MaxMAttrs = 2
   DTs = {"struct"}
   Shapes = {"tuple"}
